@@ -1,5 +1,6 @@
 import Driver.Proto
 import PvModel.Loop
+import PvModel.Utils
 /-! Driver handlers for the selection helpers / combinators (`sel.*`) and the optimise loop (`loop.*`). -/
 open Lean Proto
 
@@ -105,6 +106,13 @@ def handleLoop (op : String) (j : Json) : Except String Json := do
     .ok (rExcept (fun (p : Result Float × Nat × Book Float) =>
       Json.mkObj [("evolution", rList (rList rAgentTC) p.1.evolution), ("rates", rList rFloat p.1.rates),
                   ("best", rAgentTC p.1.best), ("steps", rNat p.2.1)]) r)
+  | "loop.trend" =>
+    -- the trend utilities on a recorded evolution: costs of the idx-th best agent of each requested generation
+    let gens ← (← getArr (← field j "gens")).mapM getPop
+    let d ← getDir (← field j "dir")
+    let idx ← getNat (← field j "idx")
+    let iters ← match j.getObjVal? "iters" with | .ok .null => pure (allIters gens) | .ok v => getNats v | .error _ => pure (allIters gens)
+    .ok (rExcept (rList rNum) (agentTrend d gens idx iters))
   | _ => err s!"unknown op {op}"
 
 end Driver
